@@ -32,7 +32,7 @@ def main():
     out = ["#### 6.2 Independently seeded changes (`/verif/seeded/<name>/`)\n",
            "| seed | property | change | needs, to manifest | own check (quick) | other checks that fire |", "|---|---|---|---|---|---|"]
     sd = os.path.join(ROOT, "seeded")
-    n_own = n = 0
+    n_own = n = n_stale = n_neut = 0
     for name in sorted(os.listdir(sd)):
         mp = os.path.join(sd, name, "meta.json")
         if not os.path.exists(mp):
@@ -42,9 +42,18 @@ def main():
         own_c = any(v.get("caught") for v in own)
         others = sorted({k.split("/")[0] for k, v in ch.items() if not k.startswith(prop + "/") and v.get("caught")})
         missed_o = sorted({k.split("/")[0] for k, v in ch.items() if not k.startswith(prop + "/") and not v.get("caught")} - set(others))
-        n += 1; n_own += own_c
-        out.append(f"| {name} | {prop} | {m.get('what', '')[:170]} | {m.get('needs_to_manifest', '')[:150]} | {'caught' if own_c else '**missed**'} | {', '.join(others) or '-'}" + (f" (not: {', '.join(missed_o)})" if missed_o else "") + " |")
-    out.append(f"\n{n_own} of {n} seeded changes are caught by the quick tier of the check of the property they were written against (seed 0); see the notes below the table for the rest.")
+        st = m.get("status_on_final_tree", "")
+        n += 1
+        if st.startswith("stale"):
+            n_stale += 1; verdict = "caught when written (patch stale on the final tree)"
+        elif st.startswith("neutralised"):
+            n_neut += 1; verdict = "caught when written; equivalent on the final tree (fix `160e1a8`)"
+        else:
+            n_own += own_c; verdict = 'caught' if own_c else '**missed**'
+        out.append(f"| {name} | {prop} | {m.get('what', '')[:170]} | {m.get('needs_to_manifest', '')[:150]} | {verdict} | {', '.join(others) or '-'}" + (f" (not: {', '.join(missed_o)})" if missed_o else "") + " |")
+    out.append(f"\n{n_own} of the {n - n_stale - n_neut} seeded changes whose patch applies to the final tree (/repo `160e1a8`) are caught by the quick tier of the check of the property they were written "
+               f"against (seed 0, re-run after the last fix). {n_stale} older patches no longer apply there (later `fix:` commits rewrote the lines they edit) and {n_neut} became equivalent "
+               f"(they extend a list argument in place, which the constructors now copy first); all of these were caught on the tree they were written against. See the notes below the table.")
     st = "\n".join(out)
     # 5.1: one row per fix: commit (from known_findings.json "fixed") and 5.2: one row per open finding
     kf = json.load(open(os.path.join(ROOT, "known_findings.json")))
